@@ -156,3 +156,21 @@ def req(ctx, rule, key, cond, okmsg, badmsg, loc=None):
     else:
         ctx.bad(rule, key, badmsg, loc=loc)
     return bool(cond)
+
+
+def strip(e):
+    """peel conversions: casts, try_from/from/into and unwrap/expect wrappers"""
+    while isinstance(e, tuple):
+        if e[0] in ("cast", "conv", "try"):
+            e = e[1]
+        elif e[0] == "call" and e[1].split("::")[-1] in ("unwrap", "expect", "try_from", "from", "into", "try_into") and e[2]:
+            e = e[2][0]
+        else:
+            return e
+    return e
+
+
+def S(p):
+    return lambda e: p(strip(e))
+
+
